@@ -20,6 +20,15 @@ impl VM {
             .extend(origins.iter().map(|(k, v)| (k.clone(), v.clone())));
     }
 
+    /// Driver-owned state that lives as long as the REPL session; the VM does not look inside.
+    pub fn take_repl_session(&mut self) -> Option<Box<dyn std::any::Any>> {
+        self.repl_session.take()
+    }
+
+    pub fn set_repl_session(&mut self, state: Box<dyn std::any::Any>) {
+        self.repl_session = Some(state);
+    }
+
     pub fn repl_module_aliases(&self) -> &HashSet<String> {
         &self.repl_module_aliases
     }
